@@ -97,17 +97,16 @@ impl Number {
                     .round()
             };
 
-            // Round to the requested number of decimals up front: the float formatter cannot
-            // round a number up into a digit position it would not otherwise print (such as
-            // 0.5 with zero decimals or 0.05 with one decimal).
-            let number = match config.max_decimal_digits {
-                Some(decimals) if number.is_finite() => {
-                    let scale = 10.0_f64.powi(decimals.max(0) as i32);
-                    let rounded = (number * scale).round() / scale;
-                    if rounded.is_finite() { rounded } else { number }
-                }
-                _ => number,
-            };
+            // A fixed number of decimals (used when values are shown with the precision of an
+            // `assert_eq` epsilon) is formatted with the standard library: the float formatter
+            // cannot round a number up into a digit position it would not otherwise print
+            // (0.5 with zero decimals, 0.05 with one decimal, 9.9e-31 with 30 decimals).
+            if let (Some(decimals), true) = (
+                config.max_decimal_digits,
+                config.max_decimal_digits == config.min_decimal_digits && number.is_finite(),
+            ) {
+                return format_compact!("{:.*}", decimals.max(0) as usize, number);
+            }
 
             let formatted_number = dtoa(number, config);
 
